@@ -190,6 +190,7 @@ func cmdCheck(args []string) (code int) {
 	}
 	r := NewReport(*prop, *tier, p.Roots[0].Fset, *repo)
 	c := &Ctx{P: p, R: r, Tier: *tier, Dir: *repo, Overlay: overlay}
+	allRepoFuncs = p.RepoFuncs()
 	pc.Run(c)
 	known, err := loadKnown(filepath.Join(vdir, "known_findings.json"))
 	if err != nil {
